@@ -34,6 +34,7 @@ EXTERNAL_MAY_PANIC = {
     "<&u128 as std::ops::Add<u128>>::add": "u128 overflow",
     "std::iter::Iterator::sum": "integer overflow (debug)",
     "melstructs::CoinValue::from_millions": "overflow",
+    "melstructs::Transaction::base_fee": "the covenant weights are summed with plain + (Iterator::sum) and a single weight can be u128::MAX",
     "melstructs::Transaction::total_outputs": "a per-denomination total (plus the fee, for MEL) reaches 2^128: is_well_formed allows 255 outputs of 2^120 and a fee of 2^120",
     "<T as std::convert::TryInto<U>>::try_into": None,   # returns Result: not a panic
 }
